@@ -813,7 +813,14 @@ func verifRunRM(size int64, buf int, ops []string) string {
 			}
 			if isQueued {
 				cancels[id]()
-				res := quiesce()
+				var res []verifAcqRes
+				for seen := false; !seen; { // the cancelled Acquire returns (with the error, or nil if it was admitted meanwhile)
+					r := <-results
+					returned++
+					res = append(res, r)
+					seen = r.id == id
+				}
+				res = append(res, quiesce()...)
 				var first, rest []string
 				for _, e := range others(res, -1) {
 					if e == fmt.Sprintf("x%d", id) {
@@ -871,6 +878,19 @@ func VerifRpccallsHandle(line string) (res string) {
 			return "bad-op"
 		}
 		return verifRunRM(sz, int(b), verifSplitOps(f[3]))
+	case f[0] == "rpccalls.srv" && len(f) == 4:
+		l, err := strconv.ParseInt(f[1], 10, 40)
+		b, err1 := strconv.ParseInt(f[2], 10, 40)
+		w, err2 := strconv.ParseInt(f[3], 10, 40)
+		if err != nil || err1 != nil || err2 != nil {
+			return "bad-op"
+		}
+		s := NewServer(ServerWithLogf(NoopLogf), ServerWithRequestMemoryLimit(int(l)), ServerWithRequestBufSize(int(b)), ServerWithMaxWorkers(int(w)))
+		_, size := VerifReqMemSem(s).Observe()
+		_, create := VerifWorkerPoolCreated(s)
+		out := fmt.Sprintf("size=%d;buf=%d;maxworkers=%d;create=%d", size, s.opts.RequestBufSize, s.opts.MaxWorkers, create)
+		_ = s.Close()
+		return out
 	}
 	return "bad-op"
 }
